@@ -42,6 +42,12 @@ class Npc:
 class SLS:
   q: [Sab, Sab]
 
+@bitstruct
+class Smf:
+  inverse: Bits2                # the name of a method of every signal object
+  data: Bits2
+  get_type: Bits2               # another one, never accessed by a block
+
 class Ifc( Interface ):
   def construct( s ):
     s.a = InPort( Bits4 )
@@ -52,6 +58,13 @@ class Ifc2( Interface ):
   def construct( s ):
     s.inner = Ifc()
     s.ps = [ InPort( Bits2 ) for _ in range(2) ]
+
+class Ifc3( Interface ):
+  def construct( s ):
+    s.a = InPort( Bits4 )
+    s.b = s.a                   # a second reference to the same port
+    s.all = [ s.a ]
+    s.c = OutPort( Bits2 )
 
 class Leaf( Component ):
   def construct( s ):
@@ -66,6 +79,11 @@ class Leaf( Component ):
   @non_blocking( lambda s: True )
   def bar( s ):
     pass
+
+class LeafD( Leaf ):            # inherits a method interface
+  def construct( s ):
+    super().construct()
+    s.extra = Wire( Bits2 )
 '''.replace(" ^ s.x[1:3][0:1] if False else s.x[3]", " ^ s.x[3]")
 
 # menu: label -> (declaration with {n}, list of expressions touched inside an update block (1-bit each), struct kind)
@@ -89,11 +107,22 @@ MENU = {
   "alias": ("s.{n} = [ Leaf() for _ in range(2) ]; s.{n}_ys = [ c.y for c in s.{n} ]; s.{n}_first = s.{n}[0].i", ["s.{n}[1].y.a[0]", "s.{n}[0].i.a[1]"]),
   # a list that grows after it has been assigned
   "growlist": ("s.{n} = []; s.{n} += [ Wire( Bits2 ) ]; s.{n} += [ Wire( Bits2 ), Wire( Bits2 ) ]", ["s.{n}[0][1]", "s.{n}[2][0]"]),
+  # elements that are put into a list after the list was assigned; lists with holes
+  "appendlist": ("s.{n} = []; s.{n}.append( Wire( Bits2 ) ); s.{n}.append( Wire( Bits2 ) )", ["s.{n}[1][0]"]),
+  "grow2d": ("s.{n} = [ [], [] ]; s.{n}[0] += [ Wire( Bits2 ) ]; s.{n}[1] += [ Wire( Bits2 ), Wire( Sab ) ]", ["s.{n}[1][0][1]", "s.{n}[1][1].b[0]"]),
+  "holelist": ("s.{n} = [ None, Leaf(), None, Leaf() ]", ["s.{n}[1].y.a[0]", "s.{n}[3].i.a[1]"]),
+  "latecomp": ("s.{n} = [ None, None ]; s.{n}[1] = Leaf()", ["s.{n}[1].y.a[1]"]),
+  "derived": ("s.{n} = LeafD()", ["s.{n}.y.l[0]", "s.{n}.y.a[1]"]),
+  "ifc3": ("s.{n} = Ifc3()", ["s.{n}.a[2]", "s.{n}.b[0]", "s.{n}.all[0][1]"]),
+  "ifc3inv": ("s.{n} = Ifc3().inverse()", ["s.{n}.a[2]", "s.{n}.b[0]", "s.{n}.all[0][1]"]),
+  "ifcinvinv": ("s.{n} = Ifc().inverse().inverse()", ["s.{n}.a[2]", "s.{n}.v[1]"]),
+  "methfield": ("s.{n} = Wire( Smf )", ["s.{n}.inverse[0]", "s.{n}.data[1]"]),
   "mid": ("s.{n} = Mid()", ["s.{n}.o[0]"]),
   "midlist": ("s.{n} = [ Mid() for _ in range(2) ]", ["s.{n}[1].o[1]"]),
 }
 MID_MENU = ["bits", "slal", "npc", "siglist", "ifc", "ifclist", "comp", "complist", "complist2", "sls"]
-TOP_MENU = ["bits", "sab", "slal", "npc", "siglist2", "ifc", "ifclist", "comp", "complist2", "method", "mid", "midlist", "sls", "alias", "growlist", "ifcinv", "ifc2inv"]
+TOP_MENU = ["bits", "sab", "slal", "npc", "siglist2", "ifc", "ifclist", "comp", "complist2", "method", "mid", "midlist", "sls", "alias", "growlist", "ifcinv", "ifc2inv",
+            "appendlist", "grow2d", "holelist", "latecomp", "derived", "ifc3", "ifc3inv", "ifcinvinv", "methfield"]
 
 
 def comp_src(cls, members, extra_sigs=""):
@@ -123,6 +152,10 @@ def hierarchy_src(top_members, mid_members):
   return src
 
 
+class FieldIsNotASignal(Exception):
+  pass
+
+
 # post-elaboration touches through the public API, by signal type
 def post_touch(sig):
   from pymtl3.datatypes import Bits
@@ -138,6 +171,7 @@ def post_touch(sig):
   else:
     for f, ft in T.__bitstruct_fields__.items():
       x = getattr(sig, f)
+      if not isinstance(x, list) and not hasattr(x, "_dsl"): raise FieldIsNotASignal(f"{sig!r}.{f} is {x!r}"[:150])
       stack = [x]
       while stack:
         u = stack.pop()
@@ -177,13 +211,18 @@ def all_objects(top):
 
 
 def check_objects(top, fail, acc):
+  from pymtl3.dsl.NamedObject import NamedObject
   from pymtl3.dsl.Connectable import Signal
   from pymtl3.dsl.Component import Component
   objs = all_objects(top)
   acc.count("evaluations", len(objs))
   byname = {}
   for o in objs:
-    n = repr(o)
+    try:
+      n = repr(o)
+      if not n.startswith("s"): raise ValueError(n)
+    except Exception as ex:
+      fail("object-without-name:" + kind(o), "every object of the hierarchy has a name", f"{type(o).__name__}: {ex!r}"[:120]); continue
     if n in byname and byname[n] is not o:
       fail("duplicate-name:" + kind(o), "unique", n, f"{type(o).__name__} vs {type(byname[n]).__name__}")
     byname[n] = o
@@ -194,8 +233,22 @@ def check_objects(top, fail, acc):
     except Exception as ex:
       fail("name-does-not-evaluate:" + kind(o), n, repr(ex)[:120]); continue
     if back is not o:
-      fail("name-evaluates-to-other-object:" + kind(o), n, repr(back)[:80], f"{type(o).__name__}")
+      k = kind(o)
+      if k == "field" and hasattr(Signal, n.rsplit(".", 1)[-1].split("[")[0]): k = "field-named-like-a-signal-method"
+      fail("name-evaluates-to-other-object:" + k, n, repr(back)[:80], f"{type(o).__name__}")
       continue
+    if isinstance(o, Component):
+      # the local collection APIs return objects of THIS component only
+      for api in ("get_child_components", "get_input_value_ports", "get_output_value_ports", "get_wires"):
+        for x in getattr(o, api)():
+          if x.get_parent_object() is not o and not (hasattr(x, "get_host_component") and not isinstance(x, Component) and x.get_host_component() is o):
+            fail("local-api-returns-foreign-object:" + api, f"objects of {n}", repr(x)); break
+      # every decorated method of the class, inherited ones too, is a method port / interface of the instance
+      for c in type(o).__mro__:
+        for an, av in vars(c).items():
+          if hasattr(av, "_non_blocking_rdy") or hasattr(av, "_callee_port"):
+            got = o.__dict__.get(an)
+            if not isinstance(got, NamedObject): fail("decorated-method-is-not-a-port", f"{n}.{an}: method port / interface", type(got).__name__, n)
     if o is top: continue
     pn = parent_name(n)
     try: par = o.get_parent_object()
@@ -254,6 +307,8 @@ def check_hierarchy(tm, mm, acc):
     pre = {repr(o) for o in all_objects(top)}
     for s in [o for o in all_objects(top) if isinstance(o, Signal) and o.is_top_level_signal()]:
       try: post_touch(s)
+      except FieldIsNotASignal as ex:
+        fail("field-access-does-not-yield-the-field-signal", "signal.field is the field's signal", str(ex), repr(s)); continue
       except Exception as ex:
         fail("post-touch-raised", "slice/field access works", repr(ex)[:200], repr(s)); break
     byname = check_objects(top, fail, acc)
@@ -262,7 +317,10 @@ def check_hierarchy(tm, mm, acc):
     from pymtl3.dsl.Connectable import InPort, OutPort
     for i, lab in enumerate(tm):
       m = getattr(top, f"m{i}", None)
-      want = {"ifcinv": [("a", OutPort), ("b", InPort)], "ifc2inv": [("inner.a", OutPort), ("inner.b", InPort), ("ps[0]", OutPort), ("ps[1]", OutPort)]}.get(lab, [])
+      want = {"ifcinv": [("a", OutPort), ("b", InPort)], "ifc2inv": [("inner.a", OutPort), ("inner.b", InPort), ("ps[0]", OutPort), ("ps[1]", OutPort)],
+              "ifc3": [("a", InPort), ("c", OutPort)], "ifc3inv": [("a", OutPort), ("c", InPort)], "ifcinvinv": [("a", InPort), ("b", OutPort)]}.get(lab, [])
+      if lab in ("ifc3", "ifc3inv") and not (m.a is m.b is m.all[0]):
+        fail("second-reference-became-another-port", "a is b is all[0]", [repr(m.a), repr(m.b), repr(m.all[0])], repr(m))
       for path, cls_ in want:
         o = eval("m." + path, {"m": m})
         if type(o) is not cls_: fail("inverse-interface-port-not-inverted", f"{path}: {cls_.__name__}", type(o).__name__, repr(o)); break
